@@ -9,6 +9,7 @@
 -/
 import UnytModel.DriverBase
 import UnytModel.RegistryC12
+import UnytModel.RegistryC12Conv
 import UnytModel.Generated.RegistryC12Cfg
 
 namespace Unyt
@@ -22,6 +23,8 @@ structure C12State where
   contents : Lut Float := defaultLut Float
   /-- the graph of `parse_unyt_expr` on the strings the harness uses -/
   ptab : List (String × Except Err (PExpr Float)) := []
+  /-- for every `c12.unit` line since the last reset: the string and the heap index it returned -/
+  uret : Array (String × Option Nat) := #[]
 
 namespace C12State
 
@@ -113,6 +116,18 @@ def defineUnit (st : C12State) (sym : String) (v : Float) (q : String) (p : Bool
       ({ st3 with contents := c' }, st3.reply (safe1 && safe2 && safe3) o3)
     | o => ({ st2 with contents := c' }, st2.reply (safe1 && safe2) o)
 
+/-- heap indices and expressions of the a-th and b-th `c12.unit` results -/
+def heapPair (st : C12State) (a b : String) : Option (Nat × Nat × UExpr Float × UExpr Float) := do
+  let ia ← a.toNat?
+  let ib ← b.toNat?
+  let (qa, ha) ← st.uret[ia]?
+  let (qb, hb) ← st.uret[ib]?
+  let i ← ha
+  let j ← hb
+  let ea ← match st.parse qa with | .ok e => some e.toUExpr | .error _ => none
+  let eb ← match st.parse qb with | .ok e => some e.toUExpr | .error _ => none
+  some (i, j, ea, eb)
+
 end C12State
 
 def parseOpC12 : List String → Option (Op Float)
@@ -163,7 +178,34 @@ def stepC12 (st : C12State) (fields : List String) : Option (C12State × String)
     | _, _ => some (st, "bad-op")
   | ["c12.lut"] => some (st, s!"ok\t{st.snapDigest st.base st.reg.lut}")
   | ["c12.contents"] => some (st, s!"ok\t{st.snapDigest st.base st.contents}")
-  | ["c12.reset"] => some ({ st with reg := fresh st.base, contents := st.base }, "ok")
+  | ["c12.reset"] => some ({ st with reg := fresh st.base, contents := st.base, uret := #[] }, "ok")
+  | ["c12.unit", q] =>
+    let (st', safe, out) := st.doOp' (.unit q)
+    let hid := match out with | .unit i _ => some i | _ => none
+    let st' := { st' with uret := st'.uret.push (q, hid) }
+    some (st', st'.reply safe out)
+  -- objects that outlived edits: conversion / addition / comparison of the a-th and b-th `c12.unit` results
+  | ["c12.conv", a, b] =>
+    match st.heapPair a b with
+    | some (i, j, ei, ej) =>
+      match heapConv st.pre st.reg i j ei ej with
+      | .ok (f, o) => some (st, s!"ok\t{bitsStr f}\t{match o with | some x => bitsStr x | none => "none"}")
+      | .error e => some (st, s!"err\t{e.str}")
+    | none => some (st, "bad-op")
+  | ["c12.to", a, b, x] =>
+    match st.heapPair a b, fb x with
+    | some (i, j, ei, ej), some x =>
+      match heapTo st.pre st.reg i j ei ej x with
+      | .ok v => some (st, s!"ok\t{bitsStr v}")
+      | .error e => some (st, s!"err\t{e.str}")
+    | _, _ => some (st, "bad-op")
+  | ["c12.addq", a, b, x, y] =>
+    match st.heapPair a b, fb x, fb y with
+    | some (i, j, ei, ej), some x, some y =>
+      match heapAdd st.pre st.reg i j ei ej x y with
+      | .ok v => some (st, s!"ok\t{bitsStr v}")
+      | .error e => some (st, s!"err\t{e.str}")
+    | _, _, _ => some (st, "bad-op")
   | ["c12.objs"] =>
     let cells := st.reg.objs.map fun d => s!"{bitsStr d.scale},{bitsStr d.offset},{d.dim.str}"
     some (st, s!"ok\t{st.reg.objs.length}\t{"|".intercalate cells}")
